@@ -123,6 +123,7 @@ class FxDoc:
                 # Compositor._bbox: the box spanned by the children the filter accepts (recursively)
                 n.bbox = self._filter_bbox(layer)
                 n.pre[1:5] = map(str, n.bbox)
+                # (the effects of the group are laid out over this box too: Compositor._bbox)
             Vsub = pc._intersect(V, n.bbox)
             n.children = [self.node(c, Vsub, False) for c in layer]
         else:
@@ -156,20 +157,22 @@ class FxDoc:
         # effects
         n.overlays, n.strokefx = [], []
         fxobj = layer.effects
+        ebox = n.bbox                       # Compositor._bbox(layer): what the effect functions draw and paste over
+        eh, ew = ebox[3] - ebox[1], ebox[2] - ebox[0]
         for eff in fxobj.find("coloroverlay"):
-            c, se = pc.draw_solid_color_fill(layer.bbox, self.psd.color_mode, eff.value)
+            c, se = pc.draw_solid_color_fill(ebox, self.psd.color_mode, eff.value)
             n.overlays.append((_f32(c), None if se is None else _f32(se), float(eff.opacity) / 100.0, _fn_name(eff.blend_mode)))
             self.features.add("color-overlay" + (":group" if is_group else ""))
         for eff in fxobj.find("patternoverlay"):
-            c, se = pc.draw_pattern_fill(layer.bbox, self.psd, eff.value)
+            c, se = pc.draw_pattern_fill(ebox, self.psd, eff.value)
             if c is None:
                 raise OutOfScope("pattern overlay without its pattern")
             if c.shape[-1] == 1 and c.shape[-1] < self.nch:
-                c = np.full([layer.height, layer.width, self.nch], c)
+                c = np.full([eh, ew, self.nch], c)
             n.overlays.append((_f32(c), None if se is None else _f32(se), float(eff.opacity) / 100.0, _fn_name(eff.blend_mode)))
             self.features.add("pattern-overlay")
         for eff in fxobj.find("gradientoverlay"):
-            c, se = pc.draw_gradient_fill(layer.bbox, self.psd.color_mode, eff.value)
+            c, se = pc.draw_gradient_fill(ebox, self.psd.color_mode, eff.value)
             if c is None:
                 raise OutOfScope("gradient overlay without colours")
             n.overlays.append((_f32(c), None if se is None else _f32(se), float(eff.opacity) / 100.0, _fn_name(eff.blend_mode)))
